@@ -5,6 +5,7 @@ import RR.Proof.Resampler
 import RR.Proof.DspFir
 import RR.Proof.Gated
 import RR.Proof.SinkSrc
+import RR.Proof.Cma
 
 /-!
 # C08 — every block is a pure stream function: output independent of chunking
@@ -164,5 +165,14 @@ theorem c08_vector_sink (max : Nat) (ws : List (List Nat)) :
 
 example : (genDrive ⟨Nat, 0, fun n => (n + 1, 10 * n)⟩ [2, 0, 3] 0) = (5, [0, 10, 20, 30, 40]) := by decide
 example : (sinkDrive 4 [[1, 2], [], [3, 4, 5], [6]] 0) = (4, [1, 2, 3, 4]) := by decide
+
+/-- `CmaEqualizer` (model compared with the real block call by call, float arithmetic included): for EVERY
+schedule of (readable prefix, free output space) the taps and the cumulative output are those of `k'` whole blocks of
+`ntaps` samples, where `k'·ntaps` is the number of samples consumed — a function of the input history alone. -/
+theorem c08_cma (n : Nat) (m s : Float32) (X : List Nat) (sched : List (Nat × Nat)) (k : Nat) :
+    ∃ k', k ≤ k' ∧
+      RR.Blk.drive1 (RR.Dsp.cmaBlock n m s) X (RR.Dsp.cmaBlocks n m s X k).1 (k * n) (RR.Dsp.cmaBlocks n m s X k).2 sched =
+        ((RR.Dsp.cmaBlocks n m s X k').1, k' * n, (RR.Dsp.cmaBlocks n m s X k').2) :=
+  RR.Dsp.cma_drive n m s X sched k
 
 end RR.Props.C08
